@@ -197,7 +197,7 @@ class JsonCache(BaseCache):
 
 # ---------------------------------------------------------------- run body
 
-def _run(self, extra=None):
+def _run(self, extra=None, refer_to_self=False):
     pr = probe.ACTIVE
     pr.begin(self)
     dep_digests = []
@@ -218,7 +218,7 @@ def _run(self, extra=None):
         ctx=ctx_view(self.context) if getattr(pr, 'embed_ctx', True) else (),
         deps=tuple(dep_digests),
         extra=extra,
-        pad=make_pad(pr.shape(self), self.ident),
+        pad=((self,) + tuple(direct_dep_occurrences(self))) if refer_to_self else make_pad(pr.shape(self), self.ident),
     )
     pr.end(self, val)
     return val
@@ -315,6 +315,18 @@ class TP:
 
 
 @labtech.task
+class TR:
+    """Its result refers to the task object itself and to its dependency task objects."""
+    ident: int
+    tag: str
+    deps: Any = ()
+    opt: Any = None
+
+    def run(self):
+        return _run(self, refer_to_self=True)
+
+
+@labtech.task
 class Node:
     ident: int
     tag: str
@@ -342,7 +354,7 @@ def _late_types():
 
 
 TYPES = {
-    'TA': TA, 'TB': TB, 'TC': TC, 'TD': TD, 'TN': TN, 'TN1': TN1, 'TP': TP,
+    'TA': TA, 'TB': TB, 'TC': TC, 'TD': TD, 'TN': TN, 'TN1': TN1, 'TP': TP, 'TR': TR,
     'Node': Node, 'NodeX': NodeX,
 }
 
@@ -358,14 +370,14 @@ def get_type(name: str):
 TYPE_INFO = {
     # name: (max_parallel, cache kind)
     'TA': (None, 'pickle'), 'TB': (1, 'pickle'), 'TC': (2, 'pickle'), 'TD': (3, 'json'),
-    'TN': (None, None), 'TN1': (1, None), 'TP': (2, 'pickle'),
+    'TN': (None, None), 'TN1': (1, None), 'TP': (2, 'pickle'), 'TR': (None, 'pickle'),
     'Node': (None, 'pickle'), 'NodeX': (None, 'pickle'), 'TA2': (None, 'pickle'),
 }
 
 TYPE_QUALNAME = {
     'TA': 'simlab.tasklib.TA', 'TB': 'simlab.tasklib.TB', 'TC': 'simlab.tasklib.TC',
     'TD': 'simlab.tasklib.TD', 'TN': 'simlab.tasklib.TN', 'TN1': 'simlab.tasklib.TN1',
-    'TP': 'simlab.tasklib.TP', 'Node': 'simlab.tasklib.Node', 'NodeX': 'simlab.tasklib.NodeX',
+    'TP': 'simlab.tasklib.TP', 'TR': 'simlab.tasklib.TR', 'Node': 'simlab.tasklib.Node', 'NodeX': 'simlab.tasklib.NodeX',
     'TA2': 'simlab.tasklib2.TA',
 }
 
